@@ -52,7 +52,8 @@ Inductive out :=
 | RPairs (ps : list (str * val))
 | RFrozen                             (* panic(frozenError) *)
 | RFault                              (* Go runtime fault: index out of range *)
-| RBadObj.                            (* harness error: no such object; never generated *)
+| RBadObj                             (* harness error: no such object; never generated *)
+| RPanic.                             (* the mapping function handed to ComputeIfAbsent panicked (the caller recovers) *)
 
 (* stringhash.go:129 ComputeIfAbsent *)
 Definition compute_if_absent (h : sh) (k : str) (v : val) : sh * out :=
@@ -65,6 +66,49 @@ Definition compute_if_absent (h : sh) (k : str) (v : val) : sh * out :=
     if frozen h then (h, RFrozen)
     else (mkSh (entries h ++ [(k, v)]) (aset (index h) k (Z.of_nat (length (entries h)))) false,
           RVal (Some v))
+  end.
+
+(* ComputeIfAbsent whose mapping function panics: stringhash.go:136 `value := dflt()` is left by the panic before
+   anything is written (the index entry is made on the line AFTER it) *)
+Definition compute_panic (h : sh) (k : str) : sh * out :=
+  match alookup (index h) k with
+  | Some p => match eget (entries h) p with
+              | Some e => (h, RVal (Some (snd e)))
+              | None => (h, RFault)
+              end
+  | None => if frozen h then (h, RFrozen) else (h, RPanic)
+  end.
+
+(* stringhash.go:255 Put (also used below) *)
+Definition put (h : sh) (k : str) (v : val) : sh * out :=
+  if frozen h then (h, RFrozen)
+  else match alookup (index h) k with
+       | Some p => match eget (entries h) p with
+                   | Some e => (mkSh (eset (entries h) (Z.to_nat p) v) (index h) false,
+                                RPut (Some (snd e)) true)
+                   | None => (h, RFault)
+                   end
+       | None => (mkSh (entries h ++ [(k, v)]) (aset (index h) k (Z.of_nat (length (entries h)))) false,
+                  RPut None false)
+       end.
+
+(* ComputeIfAbsent whose mapping function re-enters the hash: it puts k2 => v2 into the same hash and returns v.
+   stringhash.go:136-138: the position of the new entry is the length AFTER dflt() has run.  When k2 is k itself
+   the hash ends up with two entries for k (open finding compute-producer-puts-same-key); the model follows. *)
+Definition compute_put (h : sh) (k : str) (v : val) (k2 : str) (v2 : val) : sh * out :=
+  match alookup (index h) k with
+  | Some p => match eget (entries h) p with
+              | Some e => (h, RVal (Some (snd e)))
+              | None => (h, RFault)
+              end
+  | None =>
+    if frozen h then (h, RFrozen)
+    else match put h k2 v2 with
+         | (h1, RPut _ _) =>
+             (mkSh (entries h1 ++ [(k, v)]) (aset (index h1) k (Z.of_nat (length (entries h1)))) false,
+              RVal (Some v))
+         | (h1, o) => (h1, o)
+         end
   end.
 
 (* stringhash.go:142 Copy *)
@@ -99,19 +143,6 @@ Definition get_or_default (h : sh) (k : str) (d : val) : out :=
   end.
 Definition includes (h : sh) (k : str) : bool :=
   match alookup (index h) k with Some _ => true | None => false end.
-
-(* stringhash.go:255 Put *)
-Definition put (h : sh) (k : str) (v : val) : sh * out :=
-  if frozen h then (h, RFrozen)
-  else match alookup (index h) k with
-       | Some p => match eget (entries h) p with
-                   | Some e => (mkSh (eset (entries h) (Z.to_nat p) v) (index h) false,
-                                RPut (Some (snd e)) true)
-                   | None => (h, RFault)
-                   end
-       | None => (mkSh (entries h ++ [(k, v)]) (aset (index h) k (Z.of_nat (length (entries h)))) false,
-                  RPut None false)
-       end.
 
 (* stringhash.go:272 PutAll: Put for each entry of other, stops at the first panic *)
 Fixpoint put_all (h : sh) (es : list (str * val)) : sh * out :=
@@ -159,7 +190,9 @@ Inductive op :=
 | OLen (h : nat)
 | OEmpty (h : nat)
 | OIsFrozen (h : nat)
-| OEquals (h o : nat).
+| OEquals (h o : nat)
+| OComputePanic (h : nat) (k : str)                              (* ComputeIfAbsent(k, func() { panic }) + recover *)
+| OComputePut (h : nat) (k : str) (v : val) (k2 : str) (v2 : val). (* ComputeIfAbsent(k, func() { h.Put(k2, v2); return v }) *)
 
 Definition heap := list sh.
 
@@ -199,6 +232,8 @@ Definition step (hp : heap) (o : op) : heap * out :=
   | OEmpty i => with_obj hp i (fun h => (hp, RBool (Nat.eqb (length (entries h)) 0)))
   | OIsFrozen i => with_obj hp i (fun h => (hp, RBool (frozen h)))
   | OEquals i j => with_obj hp i (fun h => with_obj hp j (fun o => (hp, equals h o)))
+  | OComputePanic i k => with_obj hp i (fun h => upd hp i (compute_panic h k))
+  | OComputePut i k v k2 v2 => with_obj hp i (fun h => upd hp i (compute_put h k v k2 v2))
   end.
 
 Fixpoint run (hp : heap) (ops : list op) : heap * list out :=
@@ -246,6 +281,22 @@ Definition s_compute (h : ssh) (k : str) (v : val) : ssh * out :=
   match s_lookup (sents h) k with
   | Some x => (h, RVal (Some x))
   | None => if sfrozen h then (h, RFrozen) else (mkS (sents h ++ [(k, v)]) false, RVal (Some v))
+  end.
+(* the mapping function panics: nothing happens *)
+Definition s_compute_panic (h : ssh) (k : str) : ssh * out :=
+  match s_lookup (sents h) k with
+  | Some x => (h, RVal (Some x))
+  | None => if sfrozen h then (h, RFrozen) else (h, RPanic)
+  end.
+(* the mapping function puts ANOTHER key first: that key is put, then the computed key is appended *)
+Definition s_compute_put (h : ssh) (k : str) (v : val) (k2 : str) (v2 : val) : ssh * out :=
+  match s_lookup (sents h) k with
+  | Some x => (h, RVal (Some x))
+  | None => if sfrozen h then (h, RFrozen)
+            else match s_put h k2 v2 with
+                 | (h1, RPut _ _) => (mkS (sents h1 ++ [(k, v)]) false, RVal (Some v))
+                 | (h1, o) => (h1, o)
+                 end
   end.
 Fixpoint s_put_all (h : ssh) (es : list (str * val)) : ssh * out :=
   match es with
@@ -298,7 +349,14 @@ Definition s_step (hp : sheap) (o : op) : sheap * out :=
   | OEmpty i => s_with hp i (fun h => (hp, RBool (Nat.eqb (length (sents h)) 0)))
   | OIsFrozen i => s_with hp i (fun h => (hp, RBool (sfrozen h)))
   | OEquals i j => s_with hp i (fun h => s_with hp j (fun o => (hp, RBool (s_equals h o))))
+  | OComputePanic i k => s_with hp i (fun h => s_upd hp i (s_compute_panic h k))
+  | OComputePut i k v k2 v2 => s_with hp i (fun h => s_upd hp i (s_compute_put h k v k2 v2))
   end.
+
+(* the histories of the refinement theorem: a re-entrant mapping function puts a key OTHER than the computed one *)
+Definition op_ok (o : op) : bool :=
+  match o with OComputePut _ k _ k2 _ => negb (str_eqb k k2) | _ => true end.
+Definition ops_ok (ops : list op) : bool := forallb op_ok ops.
 
 Fixpoint s_run (hp : sheap) (ops : list op) : sheap * list out :=
   match ops with
@@ -311,7 +369,7 @@ Definition oval_eqb := option_eqb Z.eqb.
 Definition pair_eqb (a b : str * val) := str_eqb (fst a) (fst b) && Z.eqb (snd a) (snd b).
 Definition out_eqb (a b : out) : bool :=
   match a, b with
-  | RUnit, RUnit | RFrozen, RFrozen | RFault, RFault | RBadObj, RBadObj => true
+  | RUnit, RUnit | RFrozen, RFrozen | RFault, RFault | RBadObj, RBadObj | RPanic, RPanic => true
   | RObj n, RObj m => Nat.eqb n m
   | RVal x, RVal y => oval_eqb x y
   | RPut x b1, RPut y b2 => oval_eqb x y && Bool.eqb b1 b2
